@@ -8,8 +8,9 @@ def install():
     if _installed:
         return
     _installed = True
-    from vf.plugins import bits, structfp, crc, mathfn  # noqa: F401
+    from vf.plugins import bits, structfp, crc, mathfn, trig  # noqa: F401
     bits.install()
     structfp.install()
     crc.install()
     mathfn.install()
+    trig.install()
